@@ -23,7 +23,7 @@ PROPS = os.environ.get("PROPS", "").split(",") if os.environ.get("PROPS") else N
 
 
 def sh(cmd, cwd):
-    p = subprocess.run(cmd, shell=True, cwd=cwd, env=ENV, stdout=subprocess.PIPE, stderr=subprocess.STDOUT, text=True)
+    p = subprocess.run(cmd, shell=True, cwd=cwd, env=ENV, stdout=subprocess.PIPE, stderr=subprocess.STDOUT, text=True, errors="replace")
     return p.returncode, p.stdout
 
 
